@@ -137,6 +137,22 @@ pub fn cmd_map(args: &[String]) -> i32 {
 /// scattered order, re-allocate; records what the judge needs.
 pub fn cmd_exhaust(args: &[String]) -> i32 {
     let mut out = std::io::BufWriter::new(std::fs::File::create(&args[0]).expect("out"));
+    // a panic inside the real map is data (the property failed on this history), not a harness error
+    let r = std::panic::catch_unwind(std::panic::AssertUnwindSafe(exhaust_cycle));
+    let rec = match r {
+        Ok(v) => v,
+        Err(e) => {
+            let msg = e.downcast_ref::<String>().cloned().or_else(|| e.downcast_ref::<&str>().map(|s| s.to_string())).unwrap_or_default();
+            json!({"ev":"Exhaust","panic":msg})
+        }
+    };
+    writeln!(out, "{}", rec).unwrap();
+    out.flush().unwrap();
+    println!("{}", json!({"ok":true}));
+    0
+}
+
+fn exhaust_cycle() -> Value {
     let mut p = HandlerMapProbe::new();
     let mut got: Vec<i64> = Vec::new();
     for i in 0..32768u64 {
@@ -171,11 +187,8 @@ pub fn cmd_exhaust(args: &[String]) -> i32 {
     let again = p.allocate(60000).is_ok();
     let re_set: BTreeSet<i64> = re.iter().copied().collect();
     let freed_set: BTreeSet<i64> = freed.iter().copied().collect();
-    writeln!(out, "{}", json!({"ev":"Exhaust","allocated":got.len(),"distinct":distinct.len(),"min":distinct.iter().next(),"max":distinct.iter().last(),
-        "extra_ok": extra, "wrong_owner": wrong, "freed": freed.len(), "realloc_equals_freed": re_set == freed_set, "again_ok": again})).unwrap();
-    out.flush().unwrap();
-    println!("{}", json!({"ok":true}));
-    0
+    json!({"ev":"Exhaust","allocated":got.len(),"distinct":distinct.len(),"min":distinct.iter().next(),"max":distinct.iter().last(),
+        "extra_ok": extra, "wrong_owner": wrong, "freed": freed.len(), "realloc_equals_freed": re_set == freed_set, "again_ok": again})
 }
 
 // ---------------------------------------------------------------------------------------------
@@ -188,7 +201,11 @@ impl std::task::Wake for NoopWake {
 
 type CallFut = Pin<Box<dyn Future<Output = Result<(i16, u8, Vec<u8>), String>>>>;
 
+const QUIET_BASE: u64 = 1 << 40;
+
 struct Sim {
+    quiet_wrong: u64,
+    quiet_clash: u64,
     router: Arc<VRouter>,
     srv: tokio::io::DuplexStream,
     srv_closed: bool,
@@ -217,6 +234,10 @@ fn resp_frame(stream: i16, r: u64, size: usize) -> Vec<u8> {
 
 impl Sim {
     fn ev(&self, v: Value) {
+        // requests of a quiet churn (["Q",..]) are judged by counters and one summary event, not one by one
+        if v.get("r").and_then(|r| r.as_u64()).map_or(false, |r| r >= QUIET_BASE && r < u64::MAX / 2) {
+            return;
+        }
         self.events.lock().unwrap().push(v);
     }
 
@@ -250,9 +271,17 @@ impl Sim {
                 match res {
                     Ok((_stream, _op, body)) => {
                         let tag = if body.len() >= 8 { u64::from_be_bytes(body[..8].try_into().unwrap()) as i64 } else { -1 };
+                        if r >= QUIET_BASE && tag != (r + 1000) as i64 {
+                            self.quiet_wrong += 1;
+                        }
                         self.ev(json!({"ev":"Done","r":r,"tag":tag,"len":body.len()}));
                     }
-                    Err(e) => self.ev(json!({"ev":"DoneErr","r":r,"err":e.chars().take(60).collect::<String>()})),
+                    Err(e) => {
+                        if r >= QUIET_BASE {
+                            self.quiet_wrong += 1;
+                        }
+                        self.ev(json!({"ev":"DoneErr","r":r,"err":e.chars().take(60).collect::<String>()}))
+                    }
                 }
             }
         }
@@ -302,6 +331,9 @@ impl Sim {
                 continue;
             }
             let r = if body.len() >= 8 { u64::from_be_bytes(body[..8].try_into().unwrap()) } else { 0 };
+            if r >= QUIET_BASE && (stream < 0 || self.have.values().any(|s| *s == stream)) {
+                self.quiet_clash += 1;
+            }
             self.have.insert(r, stream);
             self.ev(json!({"ev":"SrvRecv","stream":stream,"r":r,"version":self.buf_version_ok()}));
         }
@@ -383,6 +415,8 @@ fn run_schedule(ops: &[Value], coalescing: bool, keepalive: Option<(u64, u64)>) 
                 coalescing,
             ));
             let mut sim = Sim {
+                quiet_wrong: 0,
+                quiet_clash: 0,
                 router,
                 srv: server,
                 srv_closed: false,
@@ -414,6 +448,29 @@ fn run_schedule(ops: &[Value], coalescing: bool, keepalive: Option<(u64, u64)>) 
                             sim.submit(r);
                         }
                         sim.poll_calls();
+                    }
+                    "Q" => {
+                        // quiet churn: `count` further requests pass through the connection (submitted, written, answered) in
+                        // batches while the tracked requests stay as they are; judged by counters, reported as ONE event
+                        let start = QUIET_BASE + op[1].as_u64().unwrap();
+                        let count = op[2].as_u64().unwrap();
+                        let (w0, c0) = (sim.quiet_wrong, sim.quiet_clash);
+                        let mut next = start;
+                        while next < start + count {
+                            let hi = (next + 250).min(start + count);
+                            for r in next..hi {
+                                sim.submit(r);
+                            }
+                            sim.poll_calls();
+                            sim.pump().await;
+                            for r in next..hi {
+                                sim.respond(r).await;
+                            }
+                            sim.pump().await;
+                            next = hi;
+                        }
+                        let unfinished = sim.calls.keys().filter(|r| **r >= QUIET_BASE).count();
+                        sim.ev(json!({"ev":"Quiet","n":count,"wrong":sim.quiet_wrong - w0,"clash":sim.quiet_clash - c0,"unfinished":unfinished}));
                     }
                     "RA" => {
                         // the server answers everything it holds, newest first
